@@ -8,6 +8,7 @@ from .impl import Avh, Sandbox, Mcp
 from . import world
 
 HEADER = 'From AP Require Import Corr.Check_Deploy.\nOpen Scope N_scope.\n'
+HEADER_PREM = 'From AP Require Import Corr.Check_Deploy Corr.Check_Premises.\nOpen Scope N_scope.\n'
 LEGACY = '.agentpack.manifest.json'
 
 def mf_name(t):
@@ -780,6 +781,10 @@ def setup_two_roots(cw, rng):
         cw.modules.append({'id': 'skill:s9', 'type': 'skill', 'dir': 'modules/skills/s9', 'files': {'SKILL.md': skill_md('s9', 'one')}, 'targets': [], 'enabled': True})
     for m in cw.modules:
         if m['type'] in ('prompt', 'skill'): m['enabled'] = True; m['targets'] = []
+    # no root without desired files (such a root gets no manifest: outside the history theorem's hypotheses, class K6c)
+    cw.zed = False; cw.repo_agents = False
+    cw.opts['write_agents_global'] = any(m['type'] == 'instructions' and m['enabled'] and (not m['targets'] or 'codex' in m['targets']) for m in cw.modules)
+    cw.claude = cw.claude and any(m['type'] == 'command' and m['enabled'] for m in cw.modules)
 
 def hist_two_roots(st, cw, sb, rng, hs):
     """S0: everything; S1: only the prompts root changes; S2: only the skills root changes; then rollbacks to
@@ -960,6 +965,7 @@ def run_cli_stream(ctx, nhist, depth, props, stream='cli_deploy', idempotence=Fa
     failing = ctx.corr(stream, HEADER, 'check_hist', 'hist_case', cases, shard_chars=40000)
     for c in failing:
         ctx.violation('model and implementation disagree on a deploy history (plan / outcome / disk)', c, no_input=True)
+    ctx.measure(stream, 'wfD_wfM_at_every_deploy', HEADER_PREM, 'hist_deploy_premises', 'hist_case', cases, shard_chars=40000)
 
 def best_root_py(R, d):
     best = None
@@ -1201,6 +1207,9 @@ def run_hist_stream(ctx, nhist, depth, props, weights, stream='full_hist', tampe
     failing = ctx.corr(stream, HEADER, 'check_hist', 'hist_case', cases, shard_chars=40000)
     for c in failing:
         ctx.violation('model and implementation disagree on a history of deploy/bootstrap/rollback/restore (plan / outcome / disk)', c, no_input=True)
+    ctx.measure(stream, 'wfD_wfM_at_every_deploy', HEADER_PREM, 'hist_deploy_premises', 'hist_case', cases, shard_chars=40000)
+    if 'C06' in props:
+        ctx.measure(stream, 'C06_restore_histories_hypotheses', HEADER_PREM, 'hist_c06_instance', 'hist_case', cases, shard_chars=40000)
 
 def oracle_rollback(ctx, props, hs, ordn, before, after, sb, base, rec):
     """C06: every path agentpack touched in a deployment after S has the content/absence it had right after S."""
